@@ -182,18 +182,28 @@ Proof.
 Qed.
 Lemma nve_same_attrs : forall k0 r s s', (forall k, get k s' = get k s) -> novalue_except k0 r s -> novalue_except k0 r s'.
 Proof. intros k0 r s s' E H k N. rewrite E. apply H; exact N. Qed.
-Lemma nve_begin_patch : forall k0 r p n s s' t, host_value r ->
-  begin_patch p (VFake n) s = (s', t) -> novalue_except k0 r s -> novalue_except k0 r s'.
+Lemma nve_set_self : forall k0 r v s, novalue_except k0 r s -> novalue_except k0 r (set_attr k0 v s).
+Proof. intros k0 r v s H k N. rewrite get_set_neq by exact N. apply H; exact N. Qed.
+Lemma nve_newval : forall k0 r p base s, host_value r -> novalue_except k0 r s -> pkey p <> k0 ->
+  opt_value_eqb (Some (newval p base s)) r = false.
 Proof.
-  intros k0 r p n s s' t Hr B H. unfold begin_patch in B. destruct (target_ok p s); inversion B; subst; auto.
-  apply nve_set; auto. apply (host_value_fresh r Hr).
+  intros k0 r p base s Hr H N. unfold newval. destruct (p_new p); try apply (host_value_fresh r Hr).
+  specialize (H (pkey p) N). destruct (get (pkey p) s) as [v|]; cbn [old_of]; auto. apply (host_value_fresh r Hr).
+Qed.
+Lemma nve_begin_patch : forall k0 r p base s s' t, host_value r ->
+  begin_patch p (newval p base s) s = (s', t) -> novalue_except k0 r s -> novalue_except k0 r s'.
+Proof.
+  intros k0 r p base s s' t Hr B H. unfold begin_patch in B. destruct (target_ok p s); inversion B; subst; auto.
+  destruct (key_eq_dec (pkey p) k0) as [E|N].
+  - rewrite E. apply nve_set_self; exact H.
+  - apply nve_set; auto. eapply nve_newval; eauto.
 Qed.
 Lemma nve_patch_enter : forall k0 r ps base s s' ts, host_value r ->
   patch_enter ps base s = (s', ts) -> novalue_except k0 r s -> novalue_except k0 r s'.
 Proof.
   induction ps as [|p q IH]; intros base s s' ts Hr E H; cbn in E.
   - inversion E; subst; auto.
-  - destruct (begin_patch p (VFake base) s) as [s1 t] eqn:B.
+  - destruct (begin_patch p (newval p base s) s) as [s1 t] eqn:B.
     destruct (patch_enter q (N.succ base) s1) as [s2 ts2] eqn:R. inversion E; subst.
     eapply IH; eauto. eapply nve_begin_patch; eauto.
 Qed.
@@ -202,7 +212,7 @@ Lemma nve_begin_all : forall k0 r ps base s s' ts, host_value r ->
 Proof.
   induction ps as [|[p g] q IH]; intros base s s' ts Hr E H; cbn in E.
   - inversion E; subst; auto.
-  - destruct (begin_patch p (VFake base) s) as [s1 t] eqn:B.
+  - destruct (begin_patch p (newval p base s) s) as [s1 t] eqn:B.
     destruct (begin_all q (N.succ base) s1) as [s2 ts2] eqn:R. inversion E; subst.
     eapply IH; eauto. eapply nve_begin_patch; eauto.
 Qed.
@@ -233,19 +243,20 @@ Qed.
 
 Lemma patch_enter_effective_fake : forall ps base s s' ts,
   patch_enter ps base s = (s', ts) -> NoDup (map pkey ps) ->
-  forall p, In p ps -> target_ok p s = true -> exists n, get (pkey p) s' = Some (VFake n).
+  forall p, In p ps -> target_ok p s = true -> p_new p <> NSame -> exists n, get (pkey p) s' = Some (VFake n).
 Proof.
-  intros ps base s s' ts E ND p Hp OK.
+  intros ps base s s' ts E ND p Hp OK NS.
   destruct (patch_enter_spec _ _ _ _ _ E ND) as (_ & _ & _ & _ & IN).
   specialize (IN p Hp OK).
   revert base s s' ts E ND Hp OK IN. induction ps as [|a r IH]; intros base s s' ts E ND Hp OK IN; [destruct Hp|].
-  cbn in E. destruct (begin_patch a (VFake base) s) as [s1 t] eqn:B.
+  cbn in E. destruct (begin_patch a (newval a base s) s) as [s1 t] eqn:B.
   destruct (patch_enter r (N.succ base) s1) as [s2 ts2] eqn:R. inversion E; subst; clear E.
   inversion ND as [|? ? NI ND']; subst.
   destruct (begin_patch_spec _ _ _ _ _ B) as (F1 & T1 & I1 & OK1 & KO1).
   destruct (patch_enter_spec _ _ _ _ _ R ND') as (F2 & _ & _ & _ & IN2).
   destruct Hp as [->|Hp].
-  - destruct (OK1 OK) as [_ G]. exists base. destruct F2 as [F2 _]. rewrite F2 by exact NI. exact G.
+  - destruct (OK1 OK) as [_ G]. exists base. destruct F2 as [F2 _]. rewrite F2 by exact NI. rewrite G.
+    unfold newval. destruct (p_new p); try reflexivity. contradiction.
   - assert (OK' : target_ok p s1 = true).
     { rewrite (target_ok_rest p s s1); auto. destruct F1; auto. }
     eapply (IH (N.succ base) s1 s' ts2 R ND' Hp OK'). apply IN2; auto.
@@ -253,11 +264,12 @@ Qed.
 
 Lemma novalue_after_patch : forall k0 r ps base s s' ts p0, host_value r ->
   patch_enter ps base s = (s', ts) -> NoDup (map pkey ps) -> In p0 ps -> pkey p0 = k0 -> target_ok p0 s = true ->
+  p_new p0 <> NSame ->
   novalue_except k0 r s -> novalue r s'.
 Proof.
-  intros k0 r ps base s s' ts p0 Hr E ND Hp Ek OK H k.
+  intros k0 r ps base s s' ts p0 Hr E ND Hp Ek OK NS H k.
   destruct (key_eq_dec k k0) as [->|N].
-  - destruct (patch_enter_effective_fake _ _ _ _ _ E ND p0 Hp OK) as [n G]. rewrite <- Ek, G.
+  - destruct (patch_enter_effective_fake _ _ _ _ _ E ND p0 Hp OK NS) as [n G]. rewrite <- Ek, G.
     apply (host_value_fresh r Hr).
   - eapply nve_patch_enter; eauto.
 Qed.
@@ -269,10 +281,10 @@ Definition host_function_unaliased (k0 : key) (s : st) : Prop :=
 Lemma byobject_target_ok : forall p s, p_byname p = false -> target_ok p s = true.
 Proof. intros p s H; unfold target_ok; rewrite H; reflexivity. Qed.
 
-Lemma outer_chdir_spec : exists p, In p outer_patched /\ pkey p = k_chdir /\ p_byname p = false.
-Proof. exists (mkP "os" "chdir" false). vm_compute. tauto. Qed.
-Lemma inner_exit_spec : exists p, In p inner_patched /\ pkey p = k_exit /\ p_byname p = false.
-Proof. exists (mkP "os" "_exit" false). vm_compute. tauto. Qed.
+Lemma outer_chdir_spec : exists p, In p outer_patched /\ pkey p = k_chdir /\ p_byname p = false /\ p_new p <> NSame.
+Proof. exists (mkP "os" "chdir" false NFresh). vm_compute. repeat split; try tauto; discriminate. Qed.
+Lemma inner_exit_spec : exists p, In p inner_patched /\ pkey p = k_exit /\ p_byname p = false /\ p_new p <> NSame.
+Proof. exists (mkP "os" "_exit" false NFresh). vm_compute. repeat split; try tauto; discriminate. Qed.
 
 (* ------------------------------------------------------------------ cwd and survival, for every script *)
 
@@ -310,14 +322,14 @@ Qed.
 Lemma patch_enter_cwd : forall ps base s, cwd (fst (patch_enter ps base s)) = cwd s.
 Proof.
   induction ps as [|p r IH]; intros base s; cbn; auto.
-  destruct (begin_patch p (VFake base) s) as [s1 t] eqn:B.
+  destruct (begin_patch p (newval p base s) s) as [s1 t] eqn:B.
   specialize (IH (N.succ base) s1). destruct (patch_enter r (N.succ base) s1) as [s2 ts]. cbn in *.
   rewrite IH. unfold begin_patch in B. destruct (target_ok p s); inversion B; reflexivity.
 Qed.
 Lemma begin_all_cwd : forall ps base s, cwd (fst (begin_all ps base s)) = cwd s.
 Proof.
   induction ps as [|[p g] r IH]; intros base s; cbn; auto.
-  destruct (begin_patch p (VFake base) s) as [s1 t] eqn:B.
+  destruct (begin_patch p (newval p base s) s) as [s1 t] eqn:B.
   specialize (IH (N.succ base) s1). destruct (begin_all r (N.succ base) s1) as [s2 ts]. cbn in *.
   rewrite IH. unfold begin_patch in B. destruct (target_ok p s); inversion B; reflexivity.
 Qed.
@@ -371,7 +383,7 @@ Proof.
   destruct (patch_enter outer_patched outer_base s0) as [s1 ot] eqn:PE. cbn in C1.
   destruct early.
   - inversion A; subst. rewrite patch_exit_cwd. exact C1.
-  - destruct outer_chdir_spec as (p0 & Hp0 & Ek & Bn).
+  - destruct outer_chdir_spec as (p0 & Hp0 & Ek & Bn & NS).
     assert (N1 : novalue (get k_chdir s) s1).
     { eapply (novalue_after_patch k_chdir (get k_chdir s) outer_patched outer_base s0 s1 ot p0); eauto.
       - exact outer_nodup.
@@ -401,7 +413,7 @@ Proof.
   destruct (begin_all begin_patched begin_base s3) as [s4 bt] eqn:B.
   destruct (patch_enter inner_patched inner_base (with_meta (meta s4 ++ [e_hook e]) s4)) as [s6 it] eqn:P.
   inversion E; subst.
-  destruct inner_exit_spec as (p0 & Hp0 & Ek & Bn).
+  destruct inner_exit_spec as (p0 & Hp0 & Ek & Bn & NS).
   eapply (novalue_after_patch k_exit r inner_patched inner_base _ s' it p0); eauto.
   - exact inner_nodup.
   - apply byobject_target_ok; exact Bn.
@@ -524,12 +536,13 @@ Lemma run_op_mods : forall e o s m0, stacked m0 (mods s) ->
   | _ => True
   end -> stacked m0 (mods (run_op e o s)).
 Proof.
-  intros e o s m0 S H; destruct o as [k [|n|k']|k|d|n kd|n|d]; cbn [run_op]; auto.
+  intros e o s m0 S H; destruct o as [k [|n|k']|k|d|n kd|n|d|k c]; cbn [run_op]; auto.
   - destruct (get k' s); exact S.
   - destruct (do_chdir_facts (fake_of outer_patched outer_base k_chdir) (e_real_chdir e) d s) as (_ & _ & _ & M & _).
     rewrite M; exact S.
   - destruct H. apply stacked_mset; auto.
   - apply stacked_mdel; auto.
+  - destruct (mutate_fields k c s) as (_ & _ & _ & M). rewrite M; exact S.
 Qed.
 Lemma run_ops_mods : forall e os s m0, stacked m0 (mods s) -> mod_ops_ok m0 os -> stacked m0 (mods (run_ops e os s)).
 Proof.
@@ -560,14 +573,14 @@ Qed.
 Lemma patch_enter_rest : forall ps base s, rest (fst (patch_enter ps base s)) = rest s.
 Proof.
   induction ps as [|p r IH]; intros base s; cbn; auto.
-  destruct (begin_patch p (VFake base) s) as [s1 t] eqn:B.
+  destruct (begin_patch p (newval p base s) s) as [s1 t] eqn:B.
   specialize (IH (N.succ base) s1). destruct (patch_enter r (N.succ base) s1) as [s2 ts]. cbn in *.
   rewrite IH. unfold begin_patch in B. destruct (target_ok p s); inversion B; reflexivity.
 Qed.
 Lemma begin_all_rest : forall ps base s, rest (fst (begin_all ps base s)) = rest s.
 Proof.
   induction ps as [|[p g] r IH]; intros base s; cbn; auto.
-  destruct (begin_patch p (VFake base) s) as [s1 t] eqn:B.
+  destruct (begin_patch p (newval p base s) s) as [s1 t] eqn:B.
   specialize (IH (N.succ base) s1). destruct (begin_all r (N.succ base) s1) as [s2 ts]. cbn in *.
   rewrite IH. unfold begin_patch in B. destruct (target_ok p s); inversion B; reflexivity.
 Qed.
@@ -636,7 +649,8 @@ Definition effective_keys (s : st) : list key :=
 Definition C13_full_statement : Prop :=
   forall root hook cy early p s,
     exists s', analyse root hook cy early p s = Alive s' /\
-               listed_state (effective_keys s) s' = listed_state (effective_keys s) s.
+               listed_state (effective_keys s) s' = listed_state (effective_keys s) s /\
+               (forall k, In k (effective_keys s) -> content (get k s) s' = content (get k s) s).
 
 Theorem setup_py_partial : forall root hook cy p s,
   let e := mk_env root hook cy false s in
